@@ -51,8 +51,12 @@ var hookMap = map[string]pointRule{
 	"sem.release":  {Target: []string{"after"}},
 	// Engine.Commit (store .. publish .. broadcast .. release .. unlock is ONE model step, taken when the
 	// actor leaves commit.return)
-	"commit.locked":    {Target: []string{"cCheck"}, Acq: true},
-	"commit.store":     {Target: []string{"cStore"}},
+	"commit.locked": {Target: []string{"cCheck"}, Acq: true},
+	"commit.store":  {Target: []string{"cStore"}},
+	// pseudo points inside the (wrapped) store write: no model step — the actor stays at cStore, and
+	// every other writer observed while it is parked there must be blocked (probe: step disabled)
+	"store.enter":      {Target: []string{"cStore"}},
+	"store.exit":       {Target: []string{"cStore"}},
 	"commit.stored":    {Target: []string{"cStore"}},
 	"commit.published": {Target: []string{"cStore"}},
 	"commit.return":    {Target: []string{"after"}},
